@@ -310,6 +310,61 @@ def probe_options():
     return entries
 
 
+def pair_call_code(cname, mname, a, b, a_opted_out):
+    argtext = BASE_CALLS.get((cname, mname), (None, '...'))[1]
+    kws = ', '.join('%s=%r' % (o, option_value(o)) for o in (a, b))
+    pre = "mongomock.ignore_feature(%r); " % a if a_opted_out else ''
+    return '%s%s.%s(%s)' % (pre, RECEIVER[cname], mname, ', '.join(x for x in (argtext, kws) if x))
+
+
+def probe_pair(cname, mname, a, b, a_opted_out):
+    """both options A and B present; A opted out with ignore_feature (or not), B never opted
+    out: B must still be rejected, whatever A is"""
+    entry = {'cls': cname, 'method': mname, 'a': a, 'b': b, 'write': mname in WRITE_METHODS,
+             'aOptedOut': a_opted_out, 'call': pair_call_code(cname, mname, a, b, a_opted_out)}
+    run = BASE_CALLS[(cname, mname)][0]
+    with saved_features():
+        set_feature(a, a_opted_out)          # every other feature (B included): not opted out
+        try:
+            run(fixture(), {a: option_value(a), b: option_value(b)})
+            entry['disp'] = 'accepted'
+        except NotImplementedError:
+            entry['disp'] = 'raisesNotImplemented'
+        except Exception as e:  # pylint: disable=broad-except
+            entry['disp'] = 'raisesOther'
+            entry['error'] = type(e).__name__
+    return entry
+
+
+def probe_pairs(singles=None):
+    """for every method and every ordered pair (A, B) of distinct options it accepts: both
+    present with neither opted out, and (A ignorable) both present with A opted out"""
+    singles = singles if singles is not None else probe_options()
+    probed = {(e['cls'], e['method']) for e in singles if e['disp'] != 'unprobed'}
+    entries = []
+    with saved_features():
+        for cname, mname, opts in public_methods():
+            if (cname, mname) not in probed:
+                continue
+            names = [o for o, _ in opts]
+            for a in names:
+                for b in names:
+                    if a == b:
+                        continue
+                    for a_out in ((False, True) if a in IGNORABLE else (False,)):
+                        entries.append(probe_pair(cname, mname, a, b, a_out))
+    return entries
+
+
+def probe_one_pair(cname, mname, a, b, a_opted_out):
+    for c, m, opts in public_methods():
+        if (c, m) == (cname, mname) and (c, m) in BASE_CALLS:
+            names = [o for o, _ in opts]
+            if a in names and b in names:
+                return probe_pair(cname, mname, a, b, a_opted_out)
+    return None
+
+
 def probe_one(cname, mname, opt, opted_out):
     for c, m, opts in public_methods():
         if (c, m) == (cname, mname):
@@ -364,5 +419,13 @@ if __name__ == '__main__':
         print('%-22s %-26s %-14s named=%-5s out=%-5s %s %s' % (
             e['cls'], e['method'], e['option'], e['named'], e['optedOut'], e['disp'],
             e.get('error') or e.get('why') or ''))
+    ps = probe_pairs(es)
+    print(len(ps), 'pairs', dict(collections.Counter(e['disp'] for e in ps)))
+    known_silent = {(e['cls'], e['method'], e['option']) for e in es
+                    if not e['optedOut'] and e['disp'] == 'accepted'}
+    for e in ps:
+        if e['disp'] == 'accepted' and (e['b'] != 'hint' or e['write']) and \
+                (e['cls'], e['method'], e['b']) not in known_silent:
+            print('PAIR', e['call'])
     print(check_feature_switches())
     print(json.dumps(mm_ni._IGNORED_FEATURES))
